@@ -435,3 +435,40 @@ func clip(s string, n int) string {
 }
 
 var _ = strings.Join
+
+// canaryBracket builds the Before/After pair of a whole-run bracket from a generator and a
+// function that asks the library a fixed set of questions about a case and renders the answers:
+// n generated cases (rapid's deterministic examples 1..n) are asked before the first case of the
+// shard and again after the last one.
+func canaryBracket[C any](id string, n int, gen func(*rapid.T) C, ask func(C) string) (func() interface{}, func(interface{}) (*Violation, C)) {
+	examples := func() []C {
+		g := rapid.Custom(gen)
+		out := make([]C, n)
+		for i := range out {
+			out[i] = g.Example(i + 1)
+		}
+		return out
+	}
+	type state struct {
+		cases   []C
+		answers []string
+	}
+	before := func() interface{} {
+		st := &state{cases: examples()}
+		for _, c := range st.cases {
+			st.answers = append(st.answers, ask(c))
+		}
+		return st
+	}
+	after := func(b interface{}) (*Violation, C) {
+		st := b.(*state)
+		for i, c := range st.cases {
+			if now := ask(c); now != st.answers[i] {
+				return Violf("%s: a canary case asked before the first case of this run and again after the last one is answered differently (something the run did in between has left a trace in process-wide state of the library; replaying this case alone will not show it)\nbefore:\n%s\nafter:\n%s", id, clip(st.answers[i], 3000), clip(now, 3000)), c
+			}
+		}
+		var zero C
+		return nil, zero
+	}
+	return before, after
+}
